@@ -88,10 +88,8 @@ func (f *atomicFile) Commit() error {
 	if err := f.File.Close(); err != nil {
 		return err
 	}
-	// rename can't overwrite on windows
-	if err := os.Remove(f.name); err != nil && !os.IsNotExist(err) {
-		return err
-	}
+	// os.Rename replaces an existing destination atomically on all supported
+	// platforms; removing it first would leave a window with no file at all
 	if err := os.Rename(f.File.Name(), f.name); err != nil {
 		return err
 	}
